@@ -402,3 +402,10 @@ def applier_stats(results):
             for m in explain(r.script, r.impl)['mech']:
                 d['mechanisms'][m] = d['mechanisms'].get(m, 0) + 1
     return d
+
+
+def applier_monotone_oracle(script, impl):
+    """C08 clause only: the numbers a replica REPORTS through the replication protocol (maxApplied, the acknowledged number,
+    Replica.lastAppliedSeq) never decrease and never run ahead of maxApplied — whatever the delivery schedule. (Order and
+    exactly-once of what is applied is C13's oracle; this one keeps only the `kind=decrease` / `kind=ack-ahead` findings.)"""
+    return [p for p in applier_oracle(script, impl) if p.startswith('kind=decrease') or p.startswith('kind=ack-ahead')]
